@@ -78,11 +78,13 @@ AWRAP = [T(ABD + 'add_var'), T(ABD + 'var_at_level'), T(ABD + 'level_of_var'), T
 SWAPV = [T(B + '_low_high'), T(B + '_swap_cofactor'), T(B + 'swap', B + 'swap!validation:levels', variant='levels', args={'x': 'int', 'y': 'int'}),
          T(B + 'swap', B + 'swap!validation:names', variant='names', args={'x': 'name', 'y': 'name'})]
 
+INIT = [T(B + '_init_terminal', B + '_init_terminal!empty', variant='empty'), T(B + '__init__', B + '__init__!empty', variant='empty', args={'levels': 'none'}, calls={B + '_init_terminal': B + '_init_terminal!empty'})]
+
 TARGETS = {
     'C01': CORE + apply_targets(['not', 'and', 'or', 'xor', 'implies', 'equiv', 'diff', 'ite']) + AOPS
     + [T(ABD + 'ite')] + aapply_targets(['~', 'and', '\\/', '#', '=>', '<->', '-', 'ite']) + ARITY,
     'C02': [T(B + 'find_or_add'), T(B + '_ite'), T(B + '_init_terminal'), T(B + 'add_var'), T(B + 'declare'), T(B + 'incref'), T(B + 'decref'),
-            T(B + 'var', B + 'var!body')] + GC,
+            T(B + 'var', B + 'var!body')] + GC + INIT,
     'C03': M2L[:1] + [T(B + '_quantify'), T(B + 'quantify', B + 'quantify!body'), T(B + 'forall'), T(B + 'exist')] + apply_targets(['forall', 'exists'])
     + [T(ABD + 'quantify'), T(ABD + 'forall'), T(ABD + 'exist')] + aapply_targets(['\\A', 'exists']),
     'C04': M2L[1:] + [T(B + '_cofactor'), T(B + '_compose'), T(B + '_vector_compose'),
